@@ -172,4 +172,15 @@ PROPS = {
         ],
         assumptions=["the scan is syntactic: identifiers resolved per package by name, shadowing by a local of the same name is treated as the local"],
     ),
+    "C01": dict(
+        gen=[],
+        trusted=[
+            "the model reads the logical page tree: effective MediaBox / Rotate / Resources by inheritance from the nearest ancestor, the content streams of a page joined by white space, parsed by the content-stream parser model of C06 (the very definitions proved there), the text-showing operators Tf / Tj / TJ / ' / \" interpreted with the current font, each string decoded by the font decoders of C07 (named encodings generated from the source, ToUnicode CMaps)",
+            "the physical layers are NOT in this model's input: how an object number is resolved through revisions, object streams and the cache is C04's model and theorems, stream filters are C05's, object syntax is C06's; here they are crossed with the logical document by the harness's own PDF writer (numbering, order, packing, filter chains, direct / indirect Length on either side of the stream and beyond the 4 KiB read-ahead, contents splitting between any two tokens, tree depth 1-5 and attribute placement, 1-4 revisions with stale versions and freed objects, table / stream / hybrid cross-reference with several field widths, LF / CRLF / CR, tight syntax, comments) and the implementation must read every such file as the model reads the tree",
+            "the layout theorems are stated on the tree (attributes at any ancestor, intermediate nodes, shared attributes moved to the parent, flat form), on the object graph (walking Kids references with bounded depth reads the tree under any object numbering) and on the content (an array of streams reads as one stream; text state carries over); that the bytes of a file denote that graph is tied by correspondence only",
+            "predicates checked on the implementation for every file: reader.Open / PageCount / GetPage / MediaBox / Rotate / ExtractTextFragments equal the logical document page by page and string by string; tabula.Open(f).PageCount / Fragments / Text agree with it",
+            "NOT modelled: text positions (C08), layout analysis of Text() (C09: only the character multiset is checked here), encryption, page labels, XObject forms, fonts without ToUnicode or named encoding (C07 covers Differences and the other tables)",
+        ],
+        assumptions=["well-formed documents only: every page has a MediaBox in force and every font named by Tf is in the page's resources; what the implementation does otherwise is C02's subject"],
+    ),
 }
